@@ -12,9 +12,16 @@ let value c =
   | ":m" -> VMem (bytes_tok (next c))
   | t -> raise (Bad ("value tag " ^ t))
 let pobs o = String.concat " " ([pbool o.o_ab; pbool o.o_ba] @ List.map (function None -> "~" | Some z -> pz z) o.o_get)
-let run_line ts = let c = { rest = ts } in let a = value c in let b = value c in
-  if not (valid a && valid b) then raise (Bad "value out of range of its type") else pobs (run a b)
-let spec_line ts os = let c = { rest = ts } in let a = value c in let b = value c in
+(* scenario ::= value value | :am <arena> oa la ob lb | :as <arena> oa ob   (both payloads inside ONE allocation) *)
+let scenario c =
+  match peek c with
+  | Some ":am" -> ignore (next c); let ar = bytes_tok (next c) in let oa = nat_tok (next c) in let la = nat_tok (next c) in
+                  let ob = nat_tok (next c) in let lb = nat_tok (next c) in SAliasMem (ar, oa, la, ob, lb)
+  | Some ":as" -> ignore (next c); let ar = bytes_tok (next c) in let oa = nat_tok (next c) in let ob = nat_tok (next c) in SAliasStr (ar, oa, ob)
+  | _ -> let a = value c in let b = value c in SPair (a, b)
+let run_line ts = let c = { rest = ts } in let s = scenario c in
+  if not (sc_valid s) then raise (Bad "value out of range of its type / window outside the arena") else pobs (sc_run s)
+let spec_line ts os = let c = { rest = ts } in let s = scenario c in
   match os with
-  | ab :: ba :: gs -> spec a b { o_ab = bool_tok ab; o_ba = bool_tok ba; o_get = List.map (fun g -> if g = "~" then None else Some (z_tok g)) gs }
+  | ab :: ba :: gs -> sc_spec s { o_ab = bool_tok ab; o_ba = bool_tok ba; o_get = List.map (fun g -> if g = "~" then None else Some (z_tok g)) gs }
   | _ -> false
